@@ -11,6 +11,14 @@ from .errors import RTLIRTranslationError
 from .structural import StructuralTranslator
 
 
+def _body_key( body, m ):
+  """Translated body of component `m` without what legitimately differs
+  between instances of one module: comments (file/line of the source) and
+  the instance path embedded in the labels of lambda update blocks."""
+  path = repr(m).replace(".","_").replace("[","_").replace("]","_").replace(":","_")
+  code = [ l for l in body.split('\n') if not l.lstrip().startswith('//') ]
+  return '\n'.join( code ).replace( "_lambda__" + path + "_", "_lambda__s_" )
+
 def mk_RTLIRTranslator( _StructuralTranslator, _BehavioralTranslator ):
   """Return an RTLIRTranslator from the two given translators."""
   class _RTLIRTranslator( _StructuralTranslator, _BehavioralTranslator ):
@@ -51,11 +59,21 @@ def mk_RTLIRTranslator( _StructuralTranslator, _BehavioralTranslator ):
           translate_component( child, components )
 
         name = s.structural.component_unique_name[m]
+        body = s.rtlir_tr_component(
+            get_component_nspace( s.behavioral, m ),
+            get_component_nspace( s.structural, m ),
+        )
         if name not in components:
-          components[name] = s.rtlir_tr_component(
-              get_component_nspace( s.behavioral, m ),
-              get_component_nspace( s.structural, m ),
-          )
+          components[name] = body
+          owners[name] = m
+        elif _body_key( body, m ) != _body_key( components[name], owners[name] ):
+          # Two components that differ in class, parameters or behavior must
+          # never share a module definition.
+          o = owners[name]
+          raise AssertionError(
+            f"{o!r} ({type(o).__module__}.{type(o).__qualname__}) and "
+            f"{m!r} ({type(m).__module__}.{type(m).__qualname__}) translate to "
+            f"different hardware but to the same module name {name}!" )
         s._gen_hierarchy_metadata( 'decl_type_vector', 'decl_type_vector' )
         s._gen_hierarchy_metadata( 'decl_type_array', 'decl_type_array'   )
         s._gen_hierarchy_metadata( 'decl_type_struct', 'decl_type_struct' )
@@ -64,6 +82,7 @@ def mk_RTLIRTranslator( _StructuralTranslator, _BehavioralTranslator ):
       s.clear( tr_top, tr_cfgs )
 
       s.component = {}
+      owners = {}
       # Generate backend representation for each component
       s.hierarchy.components = {}
       s.hierarchy.decl_type_vector = {}
